@@ -280,12 +280,12 @@ Proof.
   - intro H; inversion H; reflexivity.
 Qed.
 
-Lemma bs_loop_it (A P : vec -> vec) left eps fuel : forall st st' : bs_st,
-  bs_loop A P left eps fuel st = Some st' -> b_it st <= b_it st' <= b_it st + fuel.
+Lemma bs_loop_it (A P : vec -> vec) left ca eps fuel : forall st st' : bs_st,
+  bs_loop A P left ca eps fuel st = Some st' -> b_it st <= b_it st' <= b_it st + fuel.
 Proof.
   induction fuel as [|k IH]; intros st st'; simpl.
   - intro H; inversion H; lia.
-  - destruct (sltb eps (b_res st)); [|intro H; inversion H; lia].
+  - destruct (sltb eps (b_res st) || (b_first st && ca)); [|intro H; inversion H; lia].
     destruct (bs_step A P left eps st) as [s1'|] eqn:E; [|discriminate].
     intro H. apply IH in H. apply bs_step_it in E. lia.
 Qed.
@@ -296,7 +296,7 @@ Proof.
   unfold bicgstab. destruct (k_prologue norm_a prm f) as [nr|nr].
   - intro H; inversion H; subst; simpl; split; [lia|reflexivity].
   - unfold bs_init.
-    match goal with |- context [bs_loop ?A ?P ?l ?e ?fu ?st] => destruct (bs_loop A P l e fu st) as [st'|] eqn:E end;
+    match goal with |- context [bs_loop ?A ?P ?l ?c ?e ?fu ?st] => destruct (bs_loop A P l c e fu st) as [st'|] eqn:E end;
       [|discriminate].
     intro H; inversion H; subst; simpl. split; [|reflexivity].
     apply bs_loop_it in E. simpl in E. lia.
@@ -316,7 +316,7 @@ Theorem bicgstab_converged_guess (A P : vec -> vec) prm (f x0 : vec) junk nr :
 Proof.
   intros Hp Hca Hc. unfold bicgstab. rewrite Hp. unfold bs_init. rewrite Hca.
   destruct (p_maxiter prm); simpl; [eexists; reflexivity|].
-  rewrite Hc. eexists; reflexivity.
+  rewrite Hc. simpl. eexists; reflexivity.
 Qed.
 
 (* junk independence needs one fact about the scalar type: is_zero(zero) holds (it selects the
@@ -363,12 +363,13 @@ Proof.
   - unfold bs_orel, bs_rel; simpl. repeat split; reflexivity.
 Qed.
 
-Lemma bs_loop_rel (A P : vec -> vec) left eps fuel : forall a b : bs_st, bs_rel a b ->
-  bs_orel (bs_loop A P left eps fuel a) (bs_loop A P left eps fuel b).
+Lemma bs_loop_rel (A P : vec -> vec) left ca eps fuel : forall a b : bs_st, bs_rel a b ->
+  bs_orel (bs_loop A P left ca eps fuel a) (bs_loop A P left ca eps fuel b).
 Proof.
   induction fuel as [|k IH]; intros a b R; simpl; [exact R|].
   assert (Hres : b_res a = b_res b) by (destruct R as (_ & _ & _ & _ & _ & _ & H & _); exact H).
-  rewrite <- Hres. destruct (sltb eps (b_res a)); [|exact R].
+  assert (Hfi : b_first a = b_first b) by (destruct R as (_ & _ & _ & _ & _ & _ & _ & H & _); exact H).
+  rewrite <- Hres, <- Hfi. destruct (sltb eps (b_res a) || (b_first a && ca)); [|exact R].
   pose proof (bs_step_rel A P left eps a b R) as Q.
   destruct (bs_step A P left eps a) as [a'|], (bs_step A P left eps b) as [b'|]; simpl in Q; try contradiction.
   - apply IH. exact Q.
@@ -380,10 +381,10 @@ Theorem bicgstab_junk_independent (A P : vec -> vec) prm (f x0 : vec) (j1 j2 : b
 Proof.
   unfold bicgstab. destruct (k_prologue norm_a prm f) as [nr|nr]; [reflexivity|].
   unfold bs_init.
-  match goal with |- fst (match bs_loop ?A ?P ?l ?e ?fu ?sa with _ => _ end) = fst (match bs_loop _ _ _ _ _ ?sb with _ => _ end) =>
+  match goal with |- fst (match bs_loop ?A ?P ?l ?c ?e ?fu ?sa with _ => _ end) = fst (match bs_loop _ _ _ _ _ _ ?sb with _ => _ end) =>
     assert (R : bs_rel sa sb) by (unfold bs_rel; simpl; repeat split; try reflexivity; discriminate);
-    pose proof (bs_loop_rel A P l e fu sa sb R) as Q;
-    destruct (bs_loop A P l e fu sa) as [a'|], (bs_loop A P l e fu sb) as [b'|]; simpl in Q; try contradiction end.
+    pose proof (bs_loop_rel A P l c e fu sa sb R) as Q;
+    destruct (bs_loop A P l c e fu sa) as [a'|], (bs_loop A P l c e fu sb) as [b'|]; simpl in Q; try contradiction end.
   - destruct Q as (Hx & _ & _ & _ & _ & _ & Hres & _ & Hit & _). simpl. rewrite Hx, Hres, Hit. reflexivity.
   - reflexivity.
 Qed.
@@ -852,8 +853,8 @@ Qed.
 
 Definition bs_inv (left ca : bool) (f : vec) (eps : S) (st : bs_st) : Prop :=
   length (b_x st) = n /\
-  ((ca = false \/ b_it st <> 0) -> b_res st = norm_a (Rm left f (b_x st))) /\
-  (sltb eps (b_res st) = true -> bs_r (b_ws st) = Rm left f (b_x st)) /\
+  b_res st = norm_a (Rm left f (b_x st)) /\
+  (sltb eps (b_res st) = true \/ b_first st = true -> bs_r (b_ws st) = Rm left f (b_x st)) /\
   (b_first st = false -> length (bs_p (b_ws st)) = n /\ length (bs_v (b_ws st)) = n).
 
 (* the two half steps, for any direction p of the right length *)
@@ -913,14 +914,17 @@ Proof.
     unfold x2. rewrite vmap2_length. lia.
   - intro H; inversion H; subst st'; clear H. unfold bs_inv; simpl.
     repeat split; auto.
-    rewrite E1. discriminate.
+    rewrite E1. intros [H|H]; discriminate.
 Qed.
 
 Lemma bs_step_inv left ca (f : vec) eps (st st' : bs_st) : length f = n ->
-  bs_inv left ca f eps st -> sltb eps (b_res st) = true ->
+  bs_inv left ca f eps st -> sltb eps (b_res st) || (b_first st && ca) = true ->
   bs_step A P left eps st = Some st' -> bs_inv left ca f eps st'.
 Proof.
-  intros Lf (Lx & Hres & Hr & Hpv) Hgo. specialize (Hr Hgo).
+  intros Lf (Lx & Hres & Hr & Hpv) Hgo.
+  assert (Hgo' : sltb eps (b_res st) = true \/ b_first st = true).
+  { apply Bool.orb_true_iff in Hgo as [H|H]; [left; exact H | right; apply Bool.andb_true_iff in H; tauto]. }
+  specialize (Hr Hgo').
   assert (Lr : length (bs_r (b_ws st)) = n) by (rewrite Hr; apply Rm_len; auto).
   unfold bs_step. cbv zeta.
   destruct (b_first st) eqn:Fi.
@@ -931,11 +935,11 @@ Proof.
 Qed.
 
 Lemma bs_loop_inv left ca (f : vec) eps fuel : length f = n -> forall st st' : bs_st,
-  bs_inv left ca f eps st -> bs_loop A P left eps fuel st = Some st' -> bs_inv left ca f eps st'.
+  bs_inv left ca f eps st -> bs_loop A P left ca eps fuel st = Some st' -> bs_inv left ca f eps st'.
 Proof.
   intro Lf. induction fuel as [|k IH]; intros st st' I; simpl.
   - intro H; inversion H; subst; exact I.
-  - destruct (sltb eps (b_res st)) eqn:E; [|intro H; inversion H; subst; exact I].
+  - destruct (sltb eps (b_res st) || (b_first st && ca)) eqn:E; [|intro H; inversion H; subst; exact I].
     destruct (bs_step A P left eps st) as [s1'|] eqn:Es; [|discriminate].
     apply IH. eapply bs_step_inv; eauto.
 Qed.
@@ -944,18 +948,16 @@ Theorem bicgstab_residual_truthful prm (f x0 : vec) junk nr r w :
   length f = n -> length x0 = n ->
   k_prologue norm_a prm f = Go nr ->
   bicgstab A P prm f x0 junk = (KOk r, w) ->
-  p_ca prm = false \/ k_it r <> 0 ->
   k_res r = true_res norm_a A P (p_left prm) f (k_x r) / nr.
 Proof.
   intros Lf Lx Hp. unfold bicgstab. rewrite Hp. unfold bs_init.
-  match goal with |- context [bs_loop A P ?l ?e ?fu ?st] =>
-    assert (I : bs_inv l (p_ca prm) f e st);
-    [| destruct (bs_loop A P l e fu st) as [st'|] eqn:E; [|discriminate];
-       pose proof (bs_loop_inv l (p_ca prm) f e fu Lf st st' I E) as (_ & I2 & _) ] end.
-  { unfold bs_inv; simpl. repeat split; auto; try discriminate.
-    intros [Hc | Hc]; [rewrite Hc; reflexivity | exfalso; apply Hc; reflexivity]. }
+  match goal with |- context [bs_loop A P ?l ?c ?e ?fu ?st] =>
+    assert (I : bs_inv l c f e st);
+    [| destruct (bs_loop A P l c e fu st) as [st'|] eqn:E; [|discriminate];
+       pose proof (bs_loop_inv l c f e fu Lf st st' I E) as (_ & I2 & _) ] end.
+  { unfold bs_inv; simpl. repeat split; auto; discriminate. }
   intro H. apply pair_equal_spec in H as [H1 H2]. injection H1 as H1. rewrite <- H1. simpl.
-  intro Hc. rewrite (I2 Hc). unfold true_res, Rm. destruct (p_left prm); reflexivity.
+  rewrite I2. unfold true_res, Rm. destruct (p_left prm); reflexivity.
 Qed.
 
 End RingLaws.
